@@ -476,8 +476,10 @@ class DoIPConnection:
         self.target_addr = target_addr
         self.protocol_version = protocol_version
         self.separate_diagnostic_message_queue = separate_diagnostic_message_queue
-        self._diagnostic_message_queue: asyncio.Queue[DoIPDiagFrame] = asyncio.Queue()
-        self._read_queue: asyncio.Queue[DoIPFrame] = asyncio.Queue()
+        # A queued None marks the end of the stream; it wakes up consumers which are
+        # blocked on the queue while the connection gets closed (e.g. by the peer).
+        self._diagnostic_message_queue: asyncio.Queue[DoIPDiagFrame | None] = asyncio.Queue()
+        self._read_queue: asyncio.Queue[DoIPFrame | None] = asyncio.Queue()
         self._read_task = asyncio.create_task(self._read_worker())
         self._read_task.add_done_callback(
             handle_task_error,
@@ -576,7 +578,12 @@ class DoIPConnection:
         # the connection has been terminated.
         if self._is_closed:
             raise ConnectionError
-        return await self._read_queue.get()
+        frame = await self._read_queue.get()
+        if frame is None:
+            # The connection was closed while waiting; keep the marker for other consumers.
+            self._read_queue.put_nowait(None)
+            raise ConnectionError("connection closed while waiting for a DoIP frame")
+        return frame
 
     async def read_frame(self) -> DoIPFrame:
         async with self._mutex:
@@ -598,7 +605,13 @@ class DoIPConnection:
         try:
             while True:
                 if self.separate_diagnostic_message_queue:
-                    return await self._diagnostic_message_queue.get()
+                    if self._is_closed:
+                        raise ConnectionError
+                    frame = await self._diagnostic_message_queue.get()
+                    if frame is None:
+                        self._diagnostic_message_queue.put_nowait(None)
+                        raise ConnectionError("connection closed while waiting for a DoIP frame")
+                    return frame
                 hdr, payload = await self.read_frame()
                 if not isinstance(payload, DiagnosticMessage):
                     logger.warning(f"expected DoIP DiagnosticMessage, instead got: {hdr} {payload}")
@@ -763,6 +776,9 @@ class DoIPConnection:
             logger.debug("DoIP connection already closed!")
             return
         self._is_closed = True
+        # Nothing will be queued anymore: wake up consumers blocked on the queues.
+        self._read_queue.put_nowait(None)
+        self._diagnostic_message_queue.put_nowait(None)
         logger.debug("Cancelling read worker")
         self._read_task.cancel()
         self.writer.close()
